@@ -234,6 +234,13 @@ def run_verus_unit(u, scratch, tier, extra_flags=()):
     # lemmas / other verified functions in the template text
     extracted = {fn for (_, _, fn, _, _) in built.fn_ranges}
     ext_short = {e.split("::")[-1].split("#")[0] for e in extracted}
+    # inline blocks are emitted under the name given by their `wrap=` signature: the first `fn <name>` of the range
+    for (a, b, fn, _, _) in built.fn_ranges:
+        for ln in gen_lines[max(a - 1, 0):b]:
+            mw = re.search(r"\bfn\s+(\w+)", ln)
+            if mw:
+                ext_short.add(mw.group(1))
+                break
     for k, v in funcs.items():
         short = k.split("::")[-1]
         if v.get("mode:") == "proof" or short not in ext_short:
@@ -476,6 +483,10 @@ def finish(prop, args, seed, t0, results):
     if infra and not violations:
         for i in infra:
             lines.append(f"INFRA property={prop} reason={i[:1500]}")
+        rc = 2
+    if n_dis != n_obl and not violations and rc == 0:
+        bad = [o["name"] for o in obligations if o["status"] != "discharged"][:5]
+        lines.append(f"INFRA property={prop} reason=undischarged obligation(s) without an attributable failure: {bad}")
         rc = 2
     if n_obl == 0 and not violations and rc == 0:
         lines.append(f"INFRA property={prop} reason=zero obligations generated (vacuity guard)")
